@@ -116,7 +116,7 @@ class TagLibrary:
         """
 
         # Check for duplicates
-        if tag_name in self.__dict__:
+        if tag_name in self.__dict__ or (isinstance(tag_name, str) and hasattr(self, tag_name)):
             raise DuplicateTagError(tag_name)
         else:
             self.__dict__[tag_name] = self._tag_counter
